@@ -195,6 +195,8 @@ pub struct FileNode {
     pub synced: Vec<u8>,
     pub unsynced: Vec<u8>,
     pub entry_synced: bool,
+    /// identity of the file (an open handle keeps referring to it after it was unlinked)
+    pub id: u64,
 }
 
 impl FileNode {
@@ -214,9 +216,13 @@ pub struct FsState {
     pub dirs: BTreeSet<String>,
     pub files: BTreeMap<String, FileNode>,
     /// removed, but the removal is not durable yet
-    pub pending_deletes: Vec<(String, FileNode)>,
-    /// (path, synced bytes at the time of removal) of every file removed through the API
-    pub graveyard: Vec<(String, Vec<u8>)>,
+    pub pending_deletes: Vec<(String, u64)>,
+    /// unlinked files: gone from the directory, but (as on POSIX) a handle that was open keeps
+    /// reading / appending / syncing them; they are freed by a crash
+    pub orphans: Vec<(String, FileNode)>,
+    next_id: u64,
+    /// (path, synced bytes at the time of removal, harness tag at that time) of every file removed through the API
+    pub graveyard: Vec<(String, Vec<u8>, u64)>,
     pub log: Vec<OpRec>,
     pub plan: Vec<Fault>,
     pub hits: Vec<(usize, FaultKind, OpKind)>,
@@ -307,7 +313,9 @@ impl FakeFs {
     pub fn add_file(&self, path: &str, bytes: &[u8]) {
         let mut st = self.lock();
         st.dirs.insert(parent_of(path));
-        st.files.insert(path.to_string(), FileNode { synced: bytes.to_vec(), unsynced: Vec::new(), entry_synced: true });
+        st.next_id += 1;
+        let id = st.next_id;
+        st.files.insert(path.to_string(), FileNode { synced: bytes.to_vec(), unsynced: Vec::new(), entry_synced: true, id });
     }
 
     // ---- gate (C09): `write` blocks while the gate is closed ----
@@ -386,7 +394,10 @@ impl FakeFs {
         st.next_write_fails = false;
         // undo or keep unsynced deletions
         let pending = std::mem::take(&mut st.pending_deletes);
-        for (path, node) in pending {
+        let mut orphans = std::mem::take(&mut st.orphans);
+        for (path, id) in pending {
+            let Some(pos) = orphans.iter().position(|(_, n)| n.id == id) else { continue };
+            let (_, node) = orphans.remove(pos);
             let persisted = match loss {
                 Loss::All => false,
                 Loss::Nothing => true,
@@ -508,10 +519,12 @@ impl VerifFilesystem for FakeFs {
         }
         match st.files.remove(&p) {
             Some(node) => {
-                st.graveyard.push((p.clone(), node.synced.clone()));
+                let tag = st.tag;
+                st.graveyard.push((p.clone(), node.synced.clone(), tag));
                 if node.entry_synced {
-                    st.pending_deletes.push((p, node));
+                    st.pending_deletes.push((p.clone(), node.id));
                 }
+                st.orphans.push((p, node));
                 Ok(())
             }
             None => {
@@ -536,8 +549,10 @@ impl VerifFilesystem for FakeFs {
             st.log[idx].res = Res::NaturalErr;
             return Err(io::Error::new(io::ErrorKind::AlreadyExists, "file exists"));
         }
-        st.files.insert(p.clone(), FileNode::default());
-        Ok(Box::new(FakeFile { fs: self.clone(), path: p }))
+        st.next_id += 1;
+        let id = st.next_id;
+        st.files.insert(p.clone(), FileNode { id, ..FileNode::default() });
+        Ok(Box::new(FakeFile { fs: self.clone(), path: p, id }))
     }
 
     fn open_existing(&self, path: &Path) -> io::Result<Box<dyn VerifFile>> {
@@ -547,17 +562,33 @@ impl VerifFilesystem for FakeFs {
             st.log[idx].res = Res::InjectedErr;
             return Err(injected());
         }
-        if !st.files.contains_key(&p) {
+        let Some(id) = st.files.get(&p).map(|n| n.id) else {
             st.log[idx].res = Res::NaturalErr;
             return Err(io::Error::new(io::ErrorKind::NotFound, "no such file"));
-        }
-        Ok(Box::new(FakeFile { fs: self.clone(), path: p }))
+        };
+        Ok(Box::new(FakeFile { fs: self.clone(), path: p, id }))
     }
 }
 
 pub struct FakeFile {
     fs: FakeFs,
     path: String,
+    id: u64,
+}
+
+impl FsState {
+    /// The file a handle refers to: the directory entry if it still is that file, else the unlinked file.
+    fn node_mut(&mut self, path: &str, id: u64) -> Option<&mut FileNode> {
+        if self.files.get(path).map(|n| n.id) == Some(id) {
+            return self.files.get_mut(path);
+        }
+        self.orphans.iter_mut().find(|(_, n)| n.id == id).map(|(_, n)| n)
+    }
+
+    /// Is the file behind this handle still linked in the directory?
+    pub fn is_linked(&self, path: &str, id: u64) -> bool {
+        self.files.get(path).map(|n| n.id) == Some(id)
+    }
 }
 
 impl VerifFile for FakeFile {
@@ -567,7 +598,8 @@ impl VerifFile for FakeFile {
             st.log[idx].res = Res::InjectedErr;
             return Err(injected());
         }
-        match st.files.get(&self.path).map(|n| n.len()) {
+        let (path, id) = (self.path.clone(), self.id);
+        match st.node_mut(&path, id).map(|n| n.len()) {
             Some(n) => {
                 st.log[idx].res = Res::Ok(n);
                 Ok(n)
@@ -583,13 +615,14 @@ impl VerifFile for FakeFile {
         self.fs.pass_gate();
         let (mut st, idx, d) = self.fs.begin(OpKind::Write, &self.path, buf);
         let path = self.path.clone();
-        let Some(cur) = st.files.get(&path).map(|n| n.len()) else {
+        let id = self.id;
+        let Some(cur) = st.node_mut(&path, id).map(|n| n.len()) else {
             st.log[idx].res = Res::NaturalErr;
             return Err(io::Error::new(io::ErrorKind::NotFound, "file is gone"));
         };
         match d {
             Decision::Proceed => {
-                st.files.get_mut(&path).unwrap().unsynced.extend_from_slice(buf);
+                st.node_mut(&path, id).unwrap().unsynced.extend_from_slice(buf);
                 st.log[idx].res = Res::Ok(buf.len());
                 Ok(buf.len())
             }
@@ -610,7 +643,7 @@ impl VerifFile for FakeFile {
                     FaultKind::ShortMost => buf.len() - 1,
                     _ => (buf.len() / 2).max(1),
                 };
-                st.files.get_mut(&path).unwrap().unsynced.extend_from_slice(&buf[..k]);
+                st.node_mut(&path, id).unwrap().unsynced.extend_from_slice(&buf[..k]);
                 st.log[idx].res = Res::Short(k);
                 if kind != FaultKind::ShortOk {
                     st.next_write_fails = true;
@@ -636,7 +669,8 @@ impl VerifFile for FakeFile {
             return Err(injected());
         }
         let path = self.path.clone();
-        match st.files.get_mut(&path) {
+        let id = self.id;
+        match st.node_mut(&path, id) {
             Some(n) => {
                 let u = std::mem::take(&mut n.unsynced);
                 n.synced.extend_from_slice(&u);
